@@ -232,10 +232,13 @@ class ndpoly(numpy.ndarray):  # pylint: disable=invalid-name
         **kwargs: Any,
     ) -> Any:
         """Dispatch method for operators."""
-        if method == "reduce":
-            ufunc = REDUCE_MAPPINGS[ufunc]
-        elif method == "accumulate":
-            ufunc = ACCUMULATE_MAPPINGS[ufunc]
+        if method in ("reduce", "accumulate"):
+            mappings = REDUCE_MAPPINGS if method == "reduce" else ACCUMULATE_MAPPINGS
+            if ufunc not in mappings:
+                raise FeatureNotSupported(
+                    f"Method '{method}' of ufunc '{ufunc}' not supported."
+                )
+            ufunc = mappings[ufunc]
         elif method != "__call__":
             raise FeatureNotSupported(f"Method '{method}' not supported.")
         if ufunc not in numpoly.UFUNC_COLLECTION:
